@@ -18,7 +18,40 @@ Definition obs_of (p : pkt) : wobs :=
 (* [sblind]: the client did not read during this step (it reconnected and dropped while the broker's writer
    was blocked): what the broker wrote is unknown and is not compared *)
 Record stepobs := mkStep { sev : ev; swire : list wobs; sblind : bool }.
-Record case := mkCase { rm0 : Z; offline_q0 : bool; steps : list stepobs; ran : bool }.
+(* two aggregate case kinds (long runs whose event lists would be too long to replay step by step):
+   XWrap: the packet identifiers of a long stream on ONE connection, in arrival order, compressed - WRun a b = the
+          identifiers a, a+1, ..., b were issued one after the other, each acknowledged at once; WStuck id = id was
+          issued and is never acknowledged.  Compared with the identifier allocation of model/Flow.v.
+   XBulk: n QoS 1 messages were handed to the OFFLINE durable session, then it reconnected and acknowledged
+          everything it received: got = number of distinct messages that arrived in that connection. *)
+Inductive witem := WRun (a b : N) | WStuck (id : N).
+Inductive xcase := XWrap (items : list witem) | XBulk (n got : Z).
+
+Definition free_run (a b : N) (stuck : list N) : bool :=
+  (1 <=? a) && (a <=? b) && (b <=? 65535) && forallb (fun x => (x <? a) || (b <? x)) stuck.
+
+Fixpoint wrap_ok (curid : N) (stuck : list N) (its : list witem) : bool :=
+  match its with
+  | [] => true
+  | WRun a b :: r =>
+      match acquire_loop acquire_fuel curid stuck with
+      | Some id => (id =? a) && free_run a b stuck && wrap_ok b stuck r
+      | None => false
+      end
+  | WStuck id :: r =>
+      match acquire_loop acquire_fuel curid stuck with
+      | Some id' => (id' =? id) && wrap_ok id (id :: stuck) r
+      | None => false
+      end
+  end.
+
+Definition xcase_ok (x : xcase) : bool :=
+  match x with
+  | XWrap its => wrap_ok 0 [] its
+  | XBulk n got => (got =? n)%Z
+  end.
+
+Record case := mkCase { rm0 : Z; offline_q0 : bool; steps : list stepobs; ran : bool; extra : option xcase }.
 
 Definition wobs_eqb (a b : wobs) : bool :=
   let '(a1, a2, a3, a4) := a in let '(b1, b2, b3, b4) := b in
@@ -126,7 +159,10 @@ Fixpoint oracle (rm : Z) (st : list N * list N) (ss : list stepobs) : bool :=
   end.
 
 Definition case_ok (c : case) : bool :=
-  ran c && check (init (rm0 c) (offline_q0 c)) (steps c) && oracle (rm0 c) ([], []) (steps c).
+  ran c && match extra c with
+           | Some x => xcase_ok x
+           | None => check (init (rm0 c) (offline_q0 c)) (steps c) && oracle (rm0 c) ([], []) (steps c)
+           end.
 
 Fixpoint mismatches_from (i : nat) (cs : list case) : list nat :=
   match cs with
